@@ -411,6 +411,54 @@ example : ∃ is, parseProg genEnv 13 demoSrc = .ok is := by
     have : (parseProg genEnv 13 demoSrc).toOption.isSome = true := by decide +kernel
     rw [h] at this; cases this
 
+/-- the parsed demo program, and the bytes it assembles to -/
+def demoIs : List Instr := ((parseProg genEnv 13 demoSrc).toOption).getD []
+def demoBytes : Bytes := [13, 129, 172, 2, 64, 5, 66, 0]
+
+def smallImmB : Model.AsmFormat.Imm → Bool
+  | .ints ns => decide (ns.length < two64)
+  | .bytess bs => decide (bs.length < two64)
+  | _ => true
+
+theorem smallProg_of_B {is : List Instr} (h : is.all (fun i => i.imms.all smallImmB) = true) : SmallProg is := by
+  intro i hi x hx
+  have := List.all_eq_true.mp (List.all_eq_true.mp h i hi) x hx
+  cases x <;> simp_all [SmallImm, smallImmB]
+
+theorem demo_parse : parseProg genEnv 13 demoSrc = .ok demoIs := by
+  have h : (parseProg genEnv 13 demoSrc).toOption.isSome = true := by decide +kernel
+  unfold demoIs
+  cases hp : parseProg genEnv 13 demoSrc with
+  | ok is => rfl
+  | error e => rw [hp] at h; cases h
+
+theorem demo_encode : encode genEnv 13 demoIs = .ok demoBytes := by
+  have h : (encode genEnv 13 demoIs).toOption = some demoBytes := by decide +kernel
+  cases he : encode genEnv 13 demoIs with
+  | ok bs => rw [he] at h; simp only [Except.toOption, Option.some.injEq] at h; rw [h]
+  | error e => rw [he] at h; cases h
+
+theorem demo_small : SmallProg demoIs := smallProg_of_B (by decide +kernel)
+
+/-- `WFprog`, `Canon` and `Canonical` are inhabited by the demo program; the round-trip theorems apply to it -/
+example : WFprog genEnv 13 demoIs := parsed_wf genEnv 13 demoSrc demoIs (genFacts 13 (by decide)) demo_parse demo_small
+example : Canon genEnv demoBytes 13 demoIs :=
+  encode_canon genEnv 13 demoIs demoBytes (by decide)
+    (parsed_wf genEnv 13 demoSrc demoIs (genFacts 13 (by decide)) demo_parse demo_small) demo_encode
+example : decode genEnv demoBytes = .ok (13, demoIs) :=
+  decode_encode genEnv 13 demoIs demoBytes (by decide) (by decide) (by decide)
+    (parsed_wf genEnv 13 demoSrc demoIs (genFacts 13 (by decide)) demo_parse demo_small) demo_encode
+example : ∃ stmts, dis genEnv demoBytes = .ok (13, stmts) ∧ asm genEnv 13 stmts = .ok demoBytes :=
+  gen_asm_dis_asm 13 demoSrc demoIs demoBytes demo_parse demo_small demo_encode
+/-- the branch instructions of the demo have exactly one varint label (hypothesis of `relax_terminates_and_fits`) -/
+example : ∀ i ∈ demoIs, OneV i := by
+  have h : demoIs.all (fun i => i.imms.all (fun x => match x with
+      | .vlabel t => decide (vtarget i = some t)
+      | _ => true)) = true := by decide +kernel
+  intro i hi t ht
+  have := List.all_eq_true.mp (List.all_eq_true.mp h i hi) _ ht
+  simpa using this
+
 end Examples
 
 end Props.C33
